@@ -315,25 +315,25 @@ Proof.
     destruct (dechunk f bufsize _ rest') as [d e]. cbn [snd] in *. exact IH.
 Qed.
 
-Lemma read_line_shorter s line r : read_line s = Some (line, r) -> length r < length s.
+Lemma read_line_shorter bs s line r : read_line bs s = Some (line, r) -> length r < length s.
 Proof.
   unfold read_line. destruct s as [|x s']; [discriminate|].
-  destruct (cut_byte LF (x :: s')) as [[a b]|] eqn:E; intros H; inversion H; subst.
-  - apply cut_byte_some in E as [E _]. rewrite E, app_length. cbn. lia.
-  - cbn. lia.
+  destruct (cut_byte LF (x :: s')) as [[a b]|] eqn:E.
+  - intros H; inversion H; subst. apply cut_byte_some in E as [E _]. rewrite E, app_length. cbn. lia.
+  - destruct (unterminated_lost _ _ _); intros H; inversion H; subst. cbn. lia.
 Qed.
 
 Lemma drop_while_length f s : length (drop_while f s) <= length s.
 Proof. induction s as [|x s IH]; cbn; [lia|]. destruct (f x); cbn; lia. Qed.
 
-Lemma cont_lines_fuel : forall fuel buf s,
-  length s < fuel -> exists kv r, cont_lines fuel buf s = FOk (kv, r) /\ length r <= length s.
+Lemma cont_lines_fuel bs : forall fuel buf s,
+  length s < fuel -> exists kv r, cont_lines fuel bs buf s = FOk (kv, r) /\ length r <= length s.
 Proof.
   induction fuel as [|f IH]; intros buf s Hf; [lia|].
   cbn [cont_lines]. destruct s as [|x s']; [eauto|].
   destruct (is_sp_tab x) eqn:Ex; [|eauto].
   cbn [drop_while]. rewrite Ex.
-  destruct (read_line (drop_while is_sp_tab s')) as [[l r]|] eqn:El.
+  destruct (read_line bs (drop_while is_sp_tab s')) as [[l r]|] eqn:El.
   - apply read_line_shorter in El. pose proof (drop_while_length is_sp_tab s') as Hd.
     cbn [length] in Hf.
     destruct (IH (buf ++ SP :: trim_sp_tab l) r ltac:(lia)) as (kv & r' & -> & Hr).
@@ -341,26 +341,27 @@ Proof.
   - exists (buf ++ [SP]), []. split; [reflexivity|]. cbn. lia.
 Qed.
 
-Lemma mime_loop_fuel : forall fuel m s,
-  length s < fuel -> mime_loop fuel m s <> inl HOutOfFuel.
+Lemma mime_loop_fuel bs : forall fuel m s,
+  length s < fuel -> mime_loop fuel bs m s <> inl HOutOfFuel.
 Proof.
   induction fuel as [|f IH]; intros m s Hf; [lia|].
-  cbn [mime_loop]. destruct (read_line s) as [[line r]|] eqn:El; [|discriminate].
+  cbn [mime_loop]. destruct (read_line bs s) as [[line r]|] eqn:El; [|discriminate].
   apply read_line_shorter in El.
   destruct (is_nil line); [discriminate|].
   destruct (negb (mem_byte COLON line)); [discriminate|].
-  destruct (cont_lines_fuel (S (length r)) (trim_sp_tab line) r ltac:(lia)) as (kv & r' & -> & Hr).
+  destruct (cont_lines_fuel bs (S (length r)) (trim_sp_tab line) r ltac:(lia)) as (kv & r' & -> & Hr).
   destruct (cut_byte COLON kv) as [[k v]|]; [|discriminate].
   destruct (canonical_key k); [|discriminate].
   destruct (forallb valid_value_byte v); [|discriminate].
   apply IH. lia.
 Qed.
 
-Lemma read_mime_header_total s : read_mime_header s <> inl HOutOfFuel.
+Lemma read_mime_header_total bs s : read_mime_header bs s <> inl HOutOfFuel.
 Proof.
   unfold read_mime_header. destruct s as [|x s'].
   - apply mime_loop_fuel. cbn. lia.
-  - destruct (is_sp_tab x); [discriminate|]. apply mime_loop_fuel. lia.
+  - destruct (is_sp_tab x); [|apply mime_loop_fuel; lia].
+    destruct (read_line bs (x :: s')); [discriminate|]. destruct (_ <=? 80); discriminate.
 Qed.
 
 Ltac break_match :=
@@ -410,10 +411,10 @@ Theorem parse_response_total meth bufsize s :
   end.
 Proof.
   unfold parse_response, read_response_head.
-  destruct (read_line s) as [[line s1]|]; [|discriminate].
+  destruct (read_line bufsize s) as [[line s1]|]; [|discriminate].
   destruct (parse_status_line line) as [e|sl] eqn:E1.
   { intros ->. now apply parse_status_line_no_fuel in E1. }
-  destruct (read_mime_header s1) as [e|[h s2]] eqn:E2.
+  destruct (read_mime_header bufsize s1) as [e|[h s2]] eqn:E2.
   { intros ->. now apply read_mime_header_total in E2. }
   destruct (read_transfer meth sl _) as [e|r] eqn:E3.
   { intros ->. now apply read_transfer_no_fuel in E3. }
@@ -423,8 +424,288 @@ Proof.
     + unfold read_trailer. destruct rest as [|c1 [|c2 rest']]; cbn [b_end]; try discriminate.
       destruct (beqb c1 CR && beqb c2 LF); [cbn; discriminate|].
       destruct (negb _); [cbn; discriminate|].
-      destruct (read_mime_header (c1 :: c2 :: rest')) as [e|[t r']] eqn:Et; [|cbn; discriminate].
+      destruct (read_mime_header bufsize (c1 :: c2 :: rest')) as [e|[t r']] eqn:Et; [|cbn; discriminate].
       destruct e; cbn [b_end]; try discriminate. now apply read_mime_header_total in Et.
     + cbn [b_end]. congruence.
   - destruct (Z.ltb _ _); cbn; discriminate.
+Qed.
+
+(* ====================================================================== *)
+(* message boundaries: a self-delimited message is parsed the same whatever follows it *)
+(* ====================================================================== *)
+
+Lemma cut_byte_app c s a b t :
+  cut_byte c s = Some (a, b) -> cut_byte c (s ++ t) = Some (a, b ++ t).
+Proof.
+  intros H. apply cut_byte_some in H as [-> Hm]. rewrite <- app_assoc. cbn [app].
+  now apply cut_byte_app_hit.
+Qed.
+
+Lemma read_line_lf bs s a r :
+  cut_byte LF s = Some (a, r) -> read_line bs s = Some (strip_cr a, r).
+Proof. intros H. unfold read_line. destruct s; [discriminate|]. now rewrite H. Qed.
+
+Lemma read_line_cases bs s line r :
+  read_line bs s = Some (line, r) ->
+  (exists a, cut_byte LF s = Some (a, r) /\ line = strip_cr a) \/
+  (cut_byte LF s = None /\ r = [] /\ line = s /\ s <> []).
+Proof.
+  unfold read_line. destruct s as [|x s']; [discriminate|].
+  destruct (cut_byte LF (x :: s')) as [[a b]|] eqn:E.
+  - intros H; inversion H; subst. left. eauto.
+  - destruct (unterminated_lost _ _ _); intros H; inversion H; subst.
+    right. repeat split. discriminate.
+Qed.
+
+Lemma drop_while_app f s t :
+  drop_while f s <> [] -> drop_while f (s ++ t) = drop_while f s ++ t.
+Proof.
+  induction s as [|x s IH]; cbn [drop_while app]; [contradiction|].
+  destruct (f x); [exact IH|reflexivity].
+Qed.
+
+Lemma mime_loop_nil f bs m res : mime_loop f bs m [] <> inr res.
+Proof. destruct f; cbn; discriminate. Qed.
+
+Lemma cont_lines_stable bs : forall f buf s kv r',
+  cont_lines f bs buf s = FOk (kv, r') -> r' <> [] ->
+  forall f' t, f <= f' -> cont_lines f' bs buf (s ++ t) = FOk (kv, r' ++ t).
+Proof.
+  induction f as [|f IH]; intros buf s kv r' H Hr f' t Hf; [discriminate|].
+  destruct f' as [|f']; [lia|]. cbn [cont_lines] in *.
+  destruct s as [|x s0].
+  - inversion H; subst. contradiction.
+  - cbn [app]. destruct (is_sp_tab x) eqn:Ex.
+    + change (x :: s0 ++ t) with ((x :: s0) ++ t).
+      destruct (read_line bs (drop_while is_sp_tab (x :: s0))) as [[l r]|] eqn:El.
+      * apply read_line_cases in El as [(a & Ec & ->)|(Ec & -> & -> & Hne)].
+        -- rewrite drop_while_app by (intros E0; rewrite E0 in Ec; discriminate).
+           rewrite (read_line_lf bs _ _ _ (cut_byte_app _ _ _ _ t Ec)).
+           apply IH; [assumption|assumption|lia].
+        -- destruct f; [discriminate|]. cbn in H. inversion H; subst. contradiction.
+      * inversion H; subst. contradiction.
+    + inversion H; subst. reflexivity.
+Qed.
+
+Lemma mime_loop_stable bs : forall f m s m' r,
+  mime_loop f bs m s = inr (m', r) ->
+  forall f' t, f <= f' -> mime_loop f' bs m (s ++ t) = inr (m', r ++ t).
+Proof.
+  induction f as [|f IH]; intros m s m' r H f' t Hf; [discriminate|].
+  destruct f' as [|f']; [lia|]. cbn [mime_loop] in *.
+  destruct (read_line bs s) as [[line r0]|] eqn:El; [|discriminate].
+  apply read_line_cases in El as [(a & Ec & ->)|(Ec & -> & -> & Hne)].
+  - rewrite (read_line_lf bs _ _ _ (cut_byte_app _ _ _ _ t Ec)).
+    destruct (is_nil (strip_cr a)); [inversion H; reflexivity|].
+    destruct (negb (mem_byte COLON (strip_cr a))); [discriminate|].
+    destruct (cont_lines (S (length r0)) bs (trim_sp_tab (strip_cr a)) r0) as [[kv r1]|] eqn:Ec2;
+      [|discriminate].
+    destruct (cut_byte COLON kv) as [[k v]|] eqn:Ek; [|discriminate].
+    destruct (canonical_key k) as [key|] eqn:Ekey; [|discriminate].
+    destruct (forallb valid_value_byte v) eqn:Ev; [|discriminate].
+    assert (Hr1 : r1 <> []).
+    { intros ->. now apply mime_loop_nil in H. }
+    rewrite (cont_lines_stable bs _ _ _ _ _ Ec2 Hr1 (S (length (r0 ++ t))) t)
+      by (rewrite app_length; lia).
+    rewrite Ek, Ekey, Ev. apply IH; [assumption|lia].
+  - destruct (is_nil s) eqn:En; [destruct s; [contradiction|discriminate]|].
+    destruct (negb (mem_byte COLON s)); [discriminate|].
+    cbn [length cont_lines] in H.
+    destruct (cut_byte COLON (trim_sp_tab s)) as [[k v]|]; [|discriminate].
+    destruct (canonical_key k); [|discriminate].
+    destruct (forallb valid_value_byte v); [|discriminate].
+    now apply mime_loop_nil in H.
+Qed.
+
+Lemma read_mime_header_stable bs s m r t :
+  read_mime_header bs s = inr (m, r) -> read_mime_header bs (s ++ t) = inr (m, r ++ t).
+Proof.
+  unfold read_mime_header. destruct s as [|x s'].
+  - intros H. now apply mime_loop_nil in H.
+  - cbn [app]. destruct (is_sp_tab x).
+    { destruct (read_line bs (x :: s')); [discriminate|]. destruct (_ <=? 80); discriminate. }
+    intros H. change (x :: s' ++ t) with ((x :: s') ++ t).
+    eapply mime_loop_stable; [exact H|]. rewrite app_length. lia.
+Qed.
+
+Lemma read_chunk_line_stable bufsize s line rest t :
+  read_chunk_line bufsize s = inr (line, rest) ->
+  read_chunk_line bufsize (s ++ t) = inr (line, rest ++ t).
+Proof.
+  intros H. pose proof (read_chunk_line_inv _ _ _ _ H) as (Hs & H1 & Hle).
+  unfold read_chunk_line in *.
+  destruct (cut_byte LF (firstn bufsize s)) as [[a b]|] eqn:E.
+  - rewrite firstn_app. rewrite (cut_byte_app _ _ _ _ _ E).
+    destruct (max_line_length <=? S (length a)); [discriminate|].
+    assert (Hline : line = firstn (S (length a)) s) by congruence.
+    assert (Hn : length line = S (length a)).
+    { apply cut_byte_some in E as [E _].
+      pose proof (firstn_length bufsize s) as Hf. rewrite E, app_length in Hf. cbn [length] in Hf.
+      rewrite Hline, firstn_length. lia. }
+    rewrite <- Hn. rewrite Hs at 1 2. rewrite <- app_assoc.
+    now rewrite firstn_app_exact, skipn_app_exact.
+  - destruct (bufsize <=? length s); discriminate.
+Qed.
+
+Lemma dechunk_stable : forall f bufsize ex s d rest,
+  dechunk f bufsize ex s = (d, CEof rest) ->
+  forall f' t, f <= f' -> dechunk f' bufsize ex (s ++ t) = (d, CEof (rest ++ t)).
+Proof.
+  induction f as [|f IH]; intros bufsize ex s d rest H f' t Hf; [discriminate|].
+  destruct f' as [|f']; [lia|]. cbn [dechunk] in *.
+  destruct (read_chunk_line bufsize s) as [e|[line r0]] eqn:El; [inversion H|].
+  rewrite (read_chunk_line_stable _ _ _ _ t El).
+  destruct (parse_hex_uint _) as [n| | |]; try (inversion H; fail).
+  destruct (n =? 0)%N; [inversion H; reflexivity|].
+  destruct (_ >? excess_limit)%Z; [inversion H|].
+  destruct (N.ltb_spec (N.of_nat (length r0)) n) as [Hlt|Hge]; [inversion H|].
+  destruct (N.ltb_spec (N.of_nat (length (r0 ++ t))) n) as [Hlt'|_].
+  { rewrite app_length in Hlt'. lia. }
+  assert (Hk : N.to_nat n <= length r0) by lia.
+  rewrite firstn_app. replace (N.to_nat n - length r0) with 0 by lia.
+  cbn [firstn]. rewrite app_nil_r.
+  rewrite skipn_app. replace (N.to_nat n - length r0) with 0 by lia. cbn [skipn].
+  destruct (skipn (N.to_nat n) r0) as [|c1 [|c2 r1]]; try (inversion H; fail).
+  cbn [app]. destruct (beqb c1 CR && beqb c2 LF); [|inversion H].
+  destruct (dechunk f bufsize _ r1) as [d1 e1] eqn:Ed. inversion H; subst.
+  rewrite (IH _ _ _ _ _ Ed f' t ltac:(lia)). reflexivity.
+Qed.
+
+Lemma has_prefix_app p a b : has_prefix p a = true -> has_prefix p (a ++ b) = true.
+Proof.
+  intros H. apply has_prefix_spec in H as [r ->]. rewrite <- app_assoc. apply has_prefix_refl_app.
+Qed.
+
+Lemma contains_sub_app p a b : contains_sub p a = true -> contains_sub p (a ++ b) = true.
+Proof.
+  unfold contains_sub, index_sub. generalize 0 as n.
+  induction a as [|x a IH]; intros n H.
+  - cbn [index_sub_from] in H. destruct (has_prefix p []) eqn:E; [|discriminate].
+    destruct p; [|discriminate]. cbn [app]. destruct b; reflexivity.
+  - cbn [index_sub_from app] in *. destruct (has_prefix p (x :: a)) eqn:E.
+    + change (x :: a ++ b) with ((x :: a) ++ b). now rewrite (has_prefix_app _ _ b E).
+    + destruct (has_prefix p (x :: a ++ b)); [reflexivity|]. now apply IH.
+Qed.
+
+Lemma see_double_crlf_stable bufsize s t :
+  see_upcoming_double_crlf bufsize s = true -> see_upcoming_double_crlf bufsize (s ++ t) = true.
+Proof.
+  unfold see_upcoming_double_crlf. intros H. rewrite firstn_app. now apply contains_sub_app.
+Qed.
+
+Lemma read_trailer_stable bufsize s tr rest t :
+  read_trailer bufsize s = inr (tr, rest) -> read_trailer bufsize (s ++ t) = inr (tr, rest ++ t).
+Proof.
+  unfold read_trailer. destruct s as [|c1 [|c2 s']]; try discriminate.
+  cbn [app]. destruct (beqb c1 CR && beqb c2 LF).
+  - intros H. inversion H; subst. reflexivity.
+  - change (c1 :: c2 :: s' ++ t) with ((c1 :: c2 :: s') ++ t).
+    destruct (see_upcoming_double_crlf bufsize (c1 :: c2 :: s')) eqn:Es; [|discriminate].
+    rewrite (see_double_crlf_stable _ _ t Es). cbn [negb].
+    destruct (read_mime_header bufsize (c1 :: c2 :: s')) as [e|[h r']] eqn:Em.
+    + destruct e; discriminate.
+    + intros H. inversion H; subst. now rewrite (read_mime_header_stable _ _ _ _ t Em).
+Qed.
+
+Lemma read_trailer_not_ok bufsize s : read_trailer bufsize s <> inl BOk.
+Proof.
+  unfold read_trailer. destruct s as [|c1 [|c2 s']]; try discriminate.
+  destruct (beqb c1 CR && beqb c2 LF); [discriminate|].
+  destruct (negb _); [discriminate|].
+  destruct (read_mime_header _ _) as [e|[h r']]; [destruct e|]; discriminate.
+Qed.
+
+Lemma dechunk_not_ok : forall f bufsize ex s, snd (dechunk f bufsize ex s) <> CErr BOk.
+Proof.
+  induction f as [|f IH]; intros bufsize ex s; [cbn; discriminate|].
+  cbn [dechunk]. destruct (read_chunk_line bufsize s) as [e|[line rest]] eqn:E.
+  - unfold read_chunk_line in E. destruct (cut_byte LF (firstn bufsize s)) as [[a b]|].
+    + destruct (max_line_length <=? S (length a)); inversion E; cbn; discriminate.
+    + destruct (bufsize <=? length s); inversion E; cbn; discriminate.
+  - destruct (parse_hex_uint _) as [n| | |]; cbn [snd]; try discriminate.
+    destruct (n =? 0)%N; [cbn; discriminate|].
+    destruct (_ >? excess_limit)%Z; [cbn; discriminate|].
+    destruct (_ <? n)%N; [cbn; discriminate|].
+    destruct (skipn (N.to_nat n) rest) as [|c1 [|c2 rest']]; try (cbn; discriminate).
+    destruct (beqb c1 CR && beqb c2 LF); [|cbn; discriminate].
+    specialize (IH bufsize (excess_after ex (length line) n) rest').
+    destruct (dechunk f bufsize _ rest') as [d e]. exact IH.
+Qed.
+
+Definition with_rest (b : body_result) (r : bytes) : body_result :=
+  {| b_data := b_data b; b_end := b_end b; b_trailer := b_trailer b; b_rest := r |}.
+
+Lemma read_body_stable bufsize r s t :
+  b_end (read_body bufsize r s) = BOk -> r_framing r <> FrUntilClose ->
+  read_body bufsize r (s ++ t) =
+    with_rest (read_body bufsize r s) (b_rest (read_body bufsize r s) ++ t).
+Proof.
+  unfold read_body, with_rest. destruct (r_framing r) as [| |n|]; intros He Hf.
+  - reflexivity.
+  - unfold dechunk_all in *.
+    destruct (dechunk (S (length s)) bufsize 0 s) as [d [rest|e]] eqn:Ed.
+    + rewrite (dechunk_stable _ _ _ _ _ _ Ed (S (length (s ++ t))) t)
+        by (rewrite app_length; lia).
+      destruct (read_trailer bufsize rest) as [e|[tr rest']] eqn:Et.
+      * cbn [b_end] in He. subst e. now apply read_trailer_not_ok in Et.
+      * rewrite (read_trailer_stable _ _ _ _ t Et). reflexivity.
+    + cbn [b_end] in He. subst e.
+      pose proof (dechunk_not_ok (S (length s)) bufsize 0 s) as Hn. rewrite Ed in Hn.
+      now cbn in Hn.
+  - destruct (Z.ltb_spec (Z.of_nat (length s)) n) as [Hlt|Hge]; [cbn in He; discriminate|].
+    destruct (Z.ltb_spec (Z.of_nat (length (s ++ t))) n) as [Hlt'|_].
+    { rewrite app_length in Hlt'. lia. }
+    cbn [b_data b_end b_trailer b_rest].
+    rewrite firstn_app, skipn_app.
+    replace (Z.to_nat n - length s) with 0 by lia. cbn [firstn skipn]. now rewrite app_nil_r.
+  - contradiction.
+Qed.
+
+Lemma read_response_head_stable meth bs s r rest t :
+  read_response_head meth bs s = inr (r, rest) ->
+  read_response_head meth bs (s ++ t) = inr (r, rest ++ t).
+Proof.
+  unfold read_response_head.
+  destruct (read_line bs s) as [[line s1]|] eqn:El; [|discriminate].
+  apply read_line_cases in El as [(a & Ec & ->)|(Ec & -> & -> & Hne)].
+  - rewrite (read_line_lf bs _ _ _ (cut_byte_app _ _ _ _ t Ec)).
+    destruct (parse_status_line (strip_cr a)) as [e|sl]; [discriminate|].
+    destruct (read_mime_header bs s1) as [e|[h s2]] eqn:Em; [discriminate|].
+    rewrite (read_mime_header_stable _ _ _ _ t Em).
+    destruct (read_transfer meth sl _) as [e|r0]; [discriminate|].
+    intros H. inversion H; subst. reflexivity.
+  - destruct (parse_status_line s); [discriminate|].
+    cbn. discriminate.
+Qed.
+
+(* If a stream parses into a response whose body is self-delimited (no body, Content-Length
+   or chunked) and ends cleanly, then with ANY bytes appended the very same response, body
+   and trailers are parsed, and exactly the appended bytes are left over in addition. *)
+Theorem parse_deterministic_prefix meth bufsize s r b t :
+  parse_response meth bufsize s = Accepted r b ->
+  b_end b = BOk -> r_framing r <> FrUntilClose ->
+  parse_response meth bufsize (s ++ t) = Accepted r (with_rest b (b_rest b ++ t)).
+Proof.
+  unfold parse_response.
+  destruct (read_response_head meth bufsize s) as [e|[r0 rest]] eqn:Eh; [discriminate|].
+  intros H He Hf. inversion H; subst.
+  rewrite (read_response_head_stable _ _ _ _ _ t Eh).
+  now rewrite read_body_stable.
+Qed.
+
+(* Pipelining: if [s1] is exactly one complete self-delimited response, then in [s1 ++ s2]
+   the first message ends exactly where [s2] begins: the second parse sees s2 and only s2,
+   so no byte of one response is attributed to the other. *)
+Theorem pipelined_responses_separate m1 m2 bufsize s1 s2 r1 b1 :
+  parse_response m1 bufsize s1 = Accepted r1 b1 ->
+  b_end b1 = BOk -> r_framing r1 <> FrUntilClose -> b_rest b1 = [] ->
+  exists b1',
+    parse_response m1 bufsize (s1 ++ s2) = Accepted r1 b1' /\
+    b_data b1' = b_data b1 /\ b_trailer b1' = b_trailer b1 /\ b_end b1' = BOk /\
+    b_rest b1' = s2 /\
+    parse_response m2 bufsize (b_rest b1') = parse_response m2 bufsize s2.
+Proof.
+  intros H He Hf Hr. exists (with_rest b1 (b_rest b1 ++ s2)).
+  rewrite (parse_deterministic_prefix _ _ _ _ _ s2 H He Hf).
+  rewrite Hr. cbn. repeat split; auto.
 Qed.
